@@ -18,6 +18,14 @@ cases builds and reads the whole message a second time in the same process and d
 makes hypothesis' shrinker see a case fail once and pass later (hypothesis.errors.Flaky), run() does not let that
 surface as a harness error: the violating cases observed are re-executed, smallest first, in a fresh process
 (then in this process) and the first one that reproduces is reported; if none does, the first observed one is.
+
+Size dimension (round 4): "every value" has no size clause, so field LENGTH is a dimension of its own.  A second
+exploration puts 1-2 run-length described fields (a short generated pattern repeated to n bytes / code points / names:
+the case stores [pattern, n], not megabytes) among ordinary ones: string (read back with get_string or get_binary), text
+(ASCII and 2/3/4-byte UTF-8 patterns), name-list with one huge name, name-list with n names; n = 2^e + d, e in 0..21
+(quick) / 0..23 (thorough), d in -2..2, or uniform in 0..2^21 - i.e. just below, at and above every power of two up to
+2 MiB (8 MiB thorough), incl. 2^16 and 2^20.  Same oracle: bytes == reference encoding, value read back unchanged, the
+FOLLOWING fields read back unchanged (in order), so_far + remainder == whole.
 """
 import collections
 
@@ -37,7 +45,10 @@ RULE = (
     "deflate_long with and without sign padding, inflate_long signed/always_positive, add_mpint/add_adaptive_int on a second "
     "Message - interleaved before/between the writes and between the reads (classes hist:*), fields repeating an earlier "
     "integer as mpint/adaptive int (dup:*), and a second build+read of the same message (again); violations that depend on "
-    "state carried over from earlier examples (hypothesis Flaky) are re-confirmed in a fresh process and reported, not a harness error"
+    "state carried over from earlier examples (hypothesis Flaky) are re-confirmed in a fresh process and reported, not a harness error. "
+    "Size dimension: a second exploration with 1-2 run-length described fields (pattern repeated to n units; string / text incl. multi-byte "
+    "UTF-8 / name-list with one huge name / name-list of n names; n = 2^e+d, e<=21 quick / <=23 thorough, d in -2..2, or uniform up to 2^21) "
+    "between ordinary fields (classes size:*); such a case is non-trivial when it has >= 2 fields and a field of >= 65536 bytes"
 )
 
 
@@ -80,6 +91,54 @@ field = st.one_of(
     st.tuples(st.just("list"), st.lists(names, min_size=1, max_size=8)),
     st.tuples(st.just("mpint"), mpints),
 )
+
+# ---- size dimension: run-length described fields ("rstring"/"rtext"/"rlist"/"rlistn", value = [pattern, n]) -------------
+_BASE = {"rstring": "string", "rtext": "text", "rlist": "list", "rlistn": "list"}
+
+
+def _sizes(max_exp):
+    near_pow2 = st.integers(0, max_exp).flatmap(lambda e: st.sampled_from([-2, -1, 0, 1, 2]).map(lambda d: max(0, (1 << e) + d)))
+    return st.one_of(near_pow2, near_pow2.map(lambda v: v), st.integers(0, (1 << 21) + 4))
+
+
+def _big_field(max_exp):
+    n = _sizes(max_exp)
+    tpat = st.text(alphabet=st.sampled_from(_WIDE + "abz-@. "), min_size=1, max_size=4)
+    npat = st.text(alphabet=st.sampled_from(_WIDE + "abz-@."), min_size=1, max_size=4)
+    return st.one_of(
+        st.tuples(st.just("rstring"), st.tuples(st.binary(min_size=1, max_size=7), n)),
+        st.tuples(st.just("rstring"), st.tuples(st.binary(min_size=1, max_size=7), n)).map(lambda v: v),
+        st.tuples(st.just("rtext"), st.tuples(tpat, n)),
+        st.tuples(st.just("rlist"), st.tuples(npat, n)),
+        st.tuples(st.just("rlistn"), st.tuples(npat, _sizes(min(max_exp, 19)).map(lambda v: max(1, min(v, 1 << 19))))),
+    )
+
+
+def _big_case(max_exp):
+    b = _big_field(max_exp)
+    few = lambda k: st.lists(field, max_size=k)  # noqa: E731
+    return st.tuples(few(3), b, few(3), st.one_of(st.none(), b), few(2), st.lists(st.integers(0, 3), max_size=10), st.integers(0, 5).map(lambda v: v == 0)).map(
+        lambda t: (t[0] + [t[1]] + t[2] + ([t[3]] if t[3] is not None else []) + t[4], t[5], [], t[6])
+    )
+
+
+def _val(k, v):
+    """the value a field stands for (run-length described kinds are expanded here, never stored in the case)"""
+    if k not in _BASE:
+        return v
+    pat, n = v[0], int(v[1])
+    if k == "rlistn":
+        return [pat] * n
+    rep_ = (pat * (n // len(pat) + 1))[:n]
+    if k == "rlist":
+        return [rep_ if n else pat, "tail"]
+    return rep_
+
+
+def _short(v):
+    r = repr(v) if not isinstance(v, list) or len(v) < 50 else "[%d names: %r ...]" % (len(v), v[:3])
+    return r if len(r) <= 200 else "%s...[%d chars]...%s" % (r[:80], len(r), r[-80:])
+
 
 _INT_KINDS = ("mpint", "aint", "u32", "u64")
 HIST_OPS = ("deflate", "deflate-nopad", "inflate", "inflate-pos", "msg-mpint", "msg-aint")
@@ -332,6 +391,18 @@ def execute(ctx, case):
                 classes.add("hist:both-padding-modes-on-one-value")
     if again:
         classes.add("again:second-build-and-read")
+    for k, v in fields:
+        if k in _BASE:
+            val = _val(k, v)
+            nb = len(val) if k == "rstring" else len((val if k == "rtext" else ",".join(val)).encode("utf-8"))
+            lim = next((e for e in (8, 16, 20) if nb < (1 << e)), None)
+            classes.add("size:%s-bytes-%s" % (_BASE[k], "<2^%d" % lim if lim else ("=2^20" if nb == 1 << 20 else ">2^20")))
+            if nb in ((1 << 16) - 1, 1 << 16, (1 << 16) + 1, (1 << 20) - 1, 1 << 20, (1 << 20) + 1):
+                classes.add("size:at-a-power-of-two-boundary(2^16,2^20)+-1")
+            if nb >= 1 << 16 and fields[-1][1] is not v:
+                classes.add("size:fields-follow-a-large-field")
+            if nb >= 1 << 16 and len(fields) >= 2:
+                nontrivial = True
     jcase = {"fields": fields, "probes": probes, "hist": [list(h) for h in hist], "again": again}
     ctx.case(jcase, nontrivial, sorted(classes))
     _RING.append(jcase)
@@ -349,6 +420,8 @@ def _pass(ctx, jcase, fields, probes, plan, earlier):
 
     nf = len(fields)
     m = Message()
+    # run-length described fields: expanded value, handled as their base kind from here on
+    fields = [(_BASE.get(k, k), _val(k, v)) for k, v in fields]
     for idx, (k, v) in enumerate(fields):
         for op, n in plan.get(idx, ()):
             _side_op(ctx, jcase, op, n)
@@ -360,7 +433,7 @@ def _pass(ctx, jcase, fields, probes, plan, earlier):
             bucket = k
             if k == "mpint":
                 bucket = "mpint:" + _sign(v)
-            _viol(ctx, "encoding-differs-from-rfc4251", bucket, jcase, "field %s=%r paramiko=%s ref=%s" % (k, v if k != "string" else "...", got.hex()[:80], ref.hex()[:80]))
+            _viol(ctx, "encoding-differs-from-rfc4251", bucket, jcase, "field %s=%s paramiko=%s (%d bytes) ref=%s (%d bytes)" % (k, _short(v) if k != "string" else "...", got.hex()[:80], len(got), ref.hex()[:80], len(ref)))
     for op, n in plan.get(nf, ()):
         _side_op(ctx, jcase, op, n)
     whole = m.asbytes()
@@ -379,7 +452,7 @@ def _pass(ctx, jcase, fields, probes, plan, earlier):
                 _viol(ctx, "so_far+remainder", "at-field-%s" % k, jcase, "so_far=%d remainder=%d whole=%d" % (len(sf), len(rem), len(whole)))
         got = _read(ctx, jcase, r, k, p)
         if got != v or type(got) is not type(v):
-            _viol(ctx, "roundtrip", k, jcase, "field %d %s wrote %r read %r" % (idx, k, v, got))
+            _viol(ctx, "roundtrip", k, jcase, "field %d %s wrote %s read %s" % (idx, k, _short(v), _short(got)))
     for op, n in plan.get(2 * nf + 1, ()):
         _side_op(ctx, jcase, op, n)
     if r.get_remainder() != b"" or r.get_so_far() != whole:
@@ -539,7 +612,8 @@ def run(ctx):
             raise _Fail(str(e)) from None
 
     try:
-        ctx.explore(case_st, body, ctx.scale(5000, 60000))
+        ctx.explore(case_st, body, ctx.scale(4000, 60000))
+        ctx.explore(_big_case(21 if ctx.tier == "quick" else 23), body, ctx.scale(160, 1500), seed_offset=1)
     except (_Fail, hypothesis.errors.Flaky):
         # _Fail: hypothesis' final (minimal) case; Flaky: a case failed once and passed when re-executed
         if not _SEEN:
